@@ -56,7 +56,7 @@ def plan(tier, seed):
             'required_classes': ['strict-ok', 'recovery', 'comp:prefix-checked',
                                  'comp:nested-opener', 'stray:}', 'stray:\\end{x}',
                                  'stray:\\)', 'stray:\\]', 'error-at:first', 'error-at:middle',
-                                 'error-at:last']}
+                                 'error-at:last', 'unclosed:checked']}
 
 
 def tolerant(s, ctxname):
@@ -127,17 +127,21 @@ def check_composite(comp, res):
         D = D + W           # whitespace before the stray token is content that precedes the error
     else:
         D2 = D2 + W
-    s = D + opener + D2 + T + G
+    op2, D3 = comp.get('op2', ''), comp.get('D3', '')
+    s = D + opener + D2 + op2 + D3 + T + G
     case = dict(comp, kind='comp')
     tv = check_source(s, ctxname, res, case)
     if tv is None:
         return
+    if op2:
+        check_unclosed(comp, s, tv, res, case)
     sk, sv = strict(D, ctxname)
     if sk != 'ok':
         res.label('comp:base-not-accepted')
         return
     res.label('comp:prefix-checked')
-    res.label('stray:' + T)
+    if T:
+        res.label('stray:' + T)
     if opener:
         res.label('comp:nested-opener', case)
     want = dump(sv)['nodes']
@@ -147,6 +151,39 @@ def check_composite(comp, res):
         res.fail('c06:prefix-lost:' + ('nested' if opener else 'top') + ':' + T,
                  'nodes of the well-formed prefix %r are not the first nodes of the tolerant '
                  'result for %r: got %r' % (D, s, str(got_nodes)[:300]), case)
+
+
+TEXT_OPENERS = ['\\begin{x}', '\\begin{itemize}', '\\textbf{', '{']
+
+
+def chars_nodes(nl, shift=0):
+    from ..treedump import walk, kind
+    return set((n.pos + shift, n.pos_end + shift, n.chars) for n in walk(nl) if kind(n) == 'chars'
+               and n.pos is not None)
+
+
+def check_unclosed(comp, s, tv, res, case):
+    """D + opener + D2 + op2 + D3 with nothing closed at the end of input: the first syntax error
+    (strict mode) lies inside op2's contents, so everything D2 contains precedes it and must be
+    in the tolerant result: each chars node of strict(D2), shifted, is a chars node of it."""
+    ctxname, D, opener, D2 = comp['ctx'], comp['D'], comp['opener'], comp['D2'] + comp.get('W', '')
+    sk, sv = strict(s, ctxname)
+    if sk != 'err' or not isinstance(getattr(sv, 'pos', None), int) \
+            or sv.pos < len(D + opener + D2):
+        res.label('unclosed:error-not-after-inner-document')
+        return
+    k2, v2 = strict(D2, ctxname)
+    if k2 != 'ok':
+        return
+    res.label('unclosed:checked', case)
+    want = chars_nodes(v2, len(D + opener))
+    got = chars_nodes(tv)
+    missing = sorted(want - got)
+    if missing:
+        res.fail('c06:content-before-error-lost:unclosed-at-end-of-input',
+                 'strict mode reports the first error at %d; the chars node(s) %r of the '
+                 'well-formed part before it are not in the tolerant result for %r'
+                 % (sv.pos, missing[:3], s), case)
 
 
 def composite_strategy():
@@ -163,6 +200,15 @@ def composite_strategy():
             _, ast2 = draw(doc)
             D2 = docgrammar.render(ast2) + '{y}'
         W = draw(st.sampled_from(['', '', ' ', '\n', '  ']))
+        if draw(st.integers(0, 3)) == 0:
+            # nothing is closed: two nested unclosed constructs at the end of input
+            opener = draw(st.sampled_from(TEXT_OPENERS))
+            _, ast2 = draw(doc)
+            _, ast3 = draw(doc)
+            return {'ctx': 'default', 'D': D, 'opener': opener,
+                    'D2': docgrammar.render(ast2) + '{y}', 'W': W,
+                    'op2': draw(st.sampled_from(OPENERS[2:])), 'D3': docgrammar.render(ast3),
+                    'T': '', 'G': ''}
         return {'ctx': 'default', 'D': D, 'opener': opener, 'D2': D2, 'W': W,
                 'T': draw(st.sampled_from(STRAY)), 'G': draw(soup)}
     return comp()
@@ -226,7 +272,9 @@ def minimise(case, key):
         return dict(case, src=''.join(ddmin(list(case['src']),
                                             lambda t: holds(dict(case, src=''.join(t))))))
     c = dict(case)
-    for fld in ('G', 'D2', 'D'):
+    for fld in ('G', 'D3', 'D2', 'D'):
+        if fld not in c:
+            continue
         c[fld] = ''.join(ddmin(list(c[fld]), lambda t, f=fld: holds(dict(c, **{f: ''.join(t)}))))
         if not holds(c):
             c[fld] = case[fld]
